@@ -80,6 +80,7 @@ pub struct ProcessState {
 pub struct ProcessTransaction<'a> {
     state: Option<&'a mut ProcessState>,
     drop_behavior: DropBehavior,
+    read_only: bool,
 }
 
 impl ProcessState {
@@ -302,7 +303,17 @@ impl<'a> ProcessTransaction<'a> {
             .map(move |_| ProcessTransaction {
                 state: Some(state),
                 drop_behavior: DropBehavior::Rollback,
+                read_only: matches!(behavior, TransactionBehavior::Deferred),
             })
+    }
+
+    /// Reports whether the transaction was begun `DEFERRED`, that is, by a
+    /// read-only query.  A write inside such a transaction fails with
+    /// "database is locked" as soon as another process has committed since
+    /// its first read.
+    #[inline]
+    pub fn is_read_only(&self) -> bool {
+        self.read_only
     }
 
     #[inline]
